@@ -11,11 +11,13 @@ import (
 	"crypto/sha256"
 	"encoding/base64"
 	"encoding/hex"
+	"encoding/json"
 	"errors"
 	"fmt"
 	"io"
 	"log"
 	"net/http/httptest"
+	"sort"
 	"strconv"
 	"strings"
 	"sync"
@@ -459,12 +461,15 @@ type c15Src struct {
 }
 
 type c15Op struct {
-	K     string   `json:"k"` // mint dec declax | register remove lookup resume decode dump
-	Label int      `json:"label,omitempty"`
-	Role  int      `json:"role,omitempty"`
-	Ks    int      `json:"ks,omitempty"`
-	Data  *c15Data `json:"data,omitempty"`
-	Src   *c15Src  `json:"src,omitempty"`
+	K     string `json:"k"` // mint dec declax | register remove lookup resume decode dump | register_internal addsession removesession drop both prefill invalidate
+	Label int    `json:"label,omitempty"`
+	// addsession: label of the internal client that asks, and the session id it names the virtual session with
+	Parent int      `json:"parent,omitempty"`
+	Sess   string   `json:"sess,omitempty"`
+	Role   int      `json:"role,omitempty"`
+	Ks     int      `json:"ks,omitempty"`
+	Data   *c15Data `json:"data,omitempty"`
+	Src    *c15Src  `json:"src,omitempty"`
 }
 
 type c15Case struct {
@@ -1278,6 +1283,49 @@ type c15Live struct {
 	priv   string
 	pub    string
 	client *TestClient
+	// sessions of the other request paths
+	internal bool   // hello of an internal client
+	parent   int    // virtual session: label of the internal client it belongs to
+	vsess    string // virtual session: the session id the internal client gave it
+}
+
+const c15RoomId = "c15-room"
+
+// All messages of one connection are processed in order: the answer to a message the hub refuses
+// right away tells that everything sent before has been processed completely.
+func c15Barrier(t *testing.T, ctx context.Context, client *TestClient, n int) {
+	id := fmt.Sprintf("c15sync%d", n)
+	// (a map: TestClient.WriteJSON refuses to send an invalid *ClientMessage)
+	if err := client.WriteJSON(map[string]string{"id": id, "type": "room"}); err != nil {
+		t.Fatal(err)
+	}
+	for {
+		msg, err := client.RunUntilMessage(ctx)
+		if err != nil {
+			t.Fatalf("no answer to the barrier message: %v", err)
+		}
+		if msg.Id == id {
+			return
+		}
+	}
+}
+
+func c15WaitFor(t *testing.T, what string, f func() bool) {
+	deadline := time.Now().Add(10 * time.Second)
+	for time.Now().Before(deadline) {
+		if f() {
+			return
+		}
+		time.Sleep(200 * time.Microsecond)
+	}
+	t.Fatalf("timeout waiting for %s", what)
+}
+
+func c15Opt(u *c15Universe, d *SessionIdData) string {
+	if d == nil {
+		return "None"
+	}
+	return "(Some " + u.cd(d) + ")"
 }
 
 func c15HubSession(hub *Hub, pub string) Session {
@@ -1358,10 +1406,14 @@ func c15RunHub(t *testing.T, u *c15Universe, c *c15Case, st *c15RunStats) (trace
 	}
 	for _, o := range c.Ops {
 		switch o.K {
-		case "register":
+		case "register", "register_internal":
 			client := c15Client(t, server, hub)
 			conns = append(conns, client)
-			if err := client.SendHello(testDefaultUserId); err != nil {
+			if o.K == "register_internal" {
+				if err := client.SendHelloInternal(); err != nil {
+					t.Fatal(err)
+				}
+			} else if err := client.SendHello(testDefaultUserId); err != nil {
 				t.Fatal(err)
 			}
 			hello, err := client.RunUntilHello(ctx)
@@ -1382,21 +1434,198 @@ func c15RunHub(t *testing.T, u *c15Universe, c *c15Case, st *c15RunStats) (trace
 			a.ctrs = append(a.ctrs, a2.ctrs...)
 			e := &c15Minted{index: len(trace), ids: [2]string{priv, pub}, has: [2]bool{true, true}}
 			minted[o.Label] = e
-			live[o.Label] = &c15Live{sid: d.Sid, priv: priv, pub: pub, client: client}
+			live[o.Label] = &c15Live{sid: d.Sid, priv: priv, pub: pub, client: client, internal: o.K == "register_internal"}
 			st.minted += 2
 			emit(fmt.Sprintf("XRegister %s %s %s %s %s %s", u.cd(d), coqStr(ts1), c15Bx(iv1), coqStr(ts2), c15Bx(iv2), a.coq()),
 				fmt.Sprintf("WIds %s %s", coqStr(priv), coqStr(pub)))
-		case "remove":
+		case "remove", "drop":
+			// remove: bye.  drop: the connection goes away without a bye, the session expires
+			// (housekeeping with a clock past the expiry time).  Both end in Hub.removeSession;
+			// the virtual sessions of an internal client end with it.
 			l, ok := live[o.Label]
-			if !ok {
+			if !ok || l.client == nil {
 				continue
 			}
-			l.client.SendBye() // nolint
+			if o.K == "remove" {
+				l.client.SendBye() // nolint
+			} else {
+				l.client.conn.Close()
+				c15WaitFor(t, "unregistered client", func() bool {
+					hub.mu.RLock()
+					defer hub.mu.RUnlock()
+					_, found := hub.clients[l.sid]
+					return !found
+				})
+				hub.performHousekeeping(time.Now().Add(sessionExpireDuration + time.Minute))
+			}
+			var gone []int
+			for lb, v := range live {
+				if v.parent == o.Label && v.client == nil {
+					gone = append(gone, lb)
+				}
+			}
+			sort.Ints(gone)
+			gone = append(gone, o.Label)
+			for _, lb := range gone {
+				if !c15WaitGone(hub, live[lb].sid) {
+					t.Fatalf("session %d was not removed", live[lb].sid)
+				}
+			}
+			for _, lb := range gone {
+				emit(fmt.Sprintf("XRemove %d", live[lb].sid), "WNone")
+				delete(live, lb)
+			}
+		case "addsession":
+			// processInternalMsg "addsession": the hub mints the ids of a virtual session
+			pl, ok := live[o.Parent]
+			if !ok || !pl.internal || pl.client == nil || o.Sess == "" {
+				continue
+			}
+			hub.mu.RLock()
+			parent, _ := hub.sessions[pl.sid].(*ClientSession)
+			hub.mu.RUnlock()
+			if parent == nil {
+				t.Fatalf("no client session %d", pl.sid)
+			}
+			hub.ru.Lock()
+			if _, found := hub.rooms[getRoomIdForBackend(c15RoomId, parent.Backend())]; !found {
+				if _, err := hub.createRoom(c15RoomId, json.RawMessage("{}"), parent.Backend()); err != nil {
+					hub.ru.Unlock()
+					t.Fatal(err)
+				}
+			}
+			hub.ru.Unlock()
+			vid := GetVirtualSessionId(parent, o.Sess)
+			hub.mu.RLock()
+			prevSid, hadPrev := hub.virtualSessions[vid]
+			hub.mu.RUnlock()
+			msg := &AddSessionInternalClientMessage{
+				CommonSessionInternalClientMessage: CommonSessionInternalClientMessage{SessionId: o.Sess, RoomId: c15RoomId},
+				UserId:                             "vuser-" + o.Sess,
+			}
+			if o.Ks == 1 {
+				msg.Options = &AddSessionOptions{ActorId: "actor-" + o.Sess, ActorType: "type"}
+			}
+			if err := pl.client.SendInternalAddSession(msg); err != nil {
+				t.Fatal(err)
+			}
+			c15Barrier(t, ctx, pl.client, len(trace))
+			hub.mu.RLock()
+			newSid, found := hub.virtualSessions[vid]
+			var vs Session
+			if found {
+				vs = hub.sessions[newSid]
+			}
+			hub.mu.RUnlock()
+			if !found || vs == nil || (hadPrev && newSid == prevSid) {
+				t.Fatalf("addsession %s: no new virtual session (found %v, sid %d, previous %d)", o.Sess, found, newSid, prevSid)
+			}
+			d := vs.Data()
+			priv, pub := vs.PrivateId(), vs.PublicId()
+			var a c15Answers
+			ts1, iv1 := u.mintAnswers(c15Private, k, d, priv, &a)
+			var a2 c15Answers
+			ts2, iv2 := u.mintAnswers(c15Public, k, d, pub, &a2)
+			a.macs = append(a.macs, a2.macs...)
+			a.ctrs = append(a.ctrs, a2.ctrs...)
+			minted[o.Label] = &c15Minted{index: len(trace), ids: [2]string{priv, pub}, has: [2]bool{true, true}}
+			st.minted += 2
+			emit(fmt.Sprintf("XAddSession %s %s %s %s %s %s", u.cd(d), coqStr(ts1), c15Bx(iv1), coqStr(ts2), c15Bx(iv2), a.coq()),
+				fmt.Sprintf("WIds %s %s", coqStr(priv), coqStr(pub)))
+			if hadPrev {
+				// a virtual session with the same id was replaced: the hub closes the previous one
+				if !c15WaitGone(hub, prevSid) {
+					t.Fatalf("replaced virtual session %d was not removed", prevSid)
+				}
+				for lb, v := range live {
+					if v.sid == prevSid {
+						delete(live, lb)
+					}
+				}
+				emit(fmt.Sprintf("XRemove %d", prevSid), "WNone")
+			}
+			live[o.Label] = &c15Live{sid: d.Sid, priv: priv, pub: pub, parent: o.Parent, vsess: o.Sess}
+		case "removesession":
+			l, ok := live[o.Label]
+			if !ok || l.parent == 0 {
+				continue
+			}
+			pl, ok := live[l.parent]
+			if !ok || pl.client == nil {
+				continue
+			}
+			if err := pl.client.SendInternalRemoveSession(&RemoveSessionInternalClientMessage{
+				CommonSessionInternalClientMessage: CommonSessionInternalClientMessage{SessionId: l.vsess, RoomId: c15RoomId}}); err != nil {
+				t.Fatal(err)
+			}
+			c15Barrier(t, ctx, pl.client, len(trace))
 			if !c15WaitGone(hub, l.sid) {
-				t.Fatalf("session %d was not removed", l.sid)
+				t.Fatalf("virtual session %d was not removed", l.sid)
 			}
 			delete(live, o.Label)
 			emit(fmt.Sprintf("XRemove %d", l.sid), "WNone")
+		case "both":
+			// the hub's decoder of a role and the codec the hub holds (no cache), on the same string
+			if o.Src == nil {
+				continue
+			}
+			s, srcTerm, ok := c15Resolve(o.Src, minted)
+			if !ok {
+				continue
+			}
+			var a c15Answers
+			u.decAnswers(o.Role, k, s, &a)
+			var dh, dc *SessionIdData
+			var err error
+			if o.Role == c15Private {
+				dh = hub.decodePrivateSessionId(s)
+				dc, err = hub.cookie.DecodePrivate(s)
+			} else {
+				dh = hub.decodePublicSessionId(s)
+				dc, err = hub.cookie.DecodePublic(s)
+			}
+			if err != nil {
+				dc = nil
+			}
+			if dh != nil {
+				st.accepted++
+			} else {
+				st.rejected++
+			}
+			emit(fmt.Sprintf("XBoth %s %s %d %s", c15RoleCoq[o.Role], srcTerm, c15Chk([]byte(s)), a.coq()),
+				fmt.Sprintf("WBoth %s %s", c15Opt(u, dh), c15Opt(u, dc)))
+		case "prefill", "invalidate":
+			// the cache operations of the request paths by themselves: setDecodedSessionId with
+			// what the codec answers for the string / invalidateSessionId
+			if o.Src == nil {
+				continue
+			}
+			s, srcTerm, ok := c15Resolve(o.Src, minted)
+			if !ok {
+				continue
+			}
+			name := privateSessionName
+			if o.Role == c15Public {
+				name = publicSessionName
+			}
+			if o.K == "invalidate" {
+				hub.invalidateSessionId(s, name)
+				emit(fmt.Sprintf("XInvalidate %s %s %d", c15RoleCoq[o.Role], srcTerm, c15Chk([]byte(s))), "WNone")
+				continue
+			}
+			var a c15Answers
+			u.decAnswers(o.Role, k, s, &a)
+			var dc *SessionIdData
+			var err error
+			if o.Role == c15Private {
+				dc, err = hub.cookie.DecodePrivate(s)
+			} else {
+				dc, err = hub.cookie.DecodePublic(s)
+			}
+			if err == nil {
+				hub.setDecodedSessionId(s, name, dc)
+			}
+			emit(fmt.Sprintf("XPrefill %s %s %d %s", c15RoleCoq[o.Role], srcTerm, c15Chk([]byte(s)), a.coq()), "WNone")
 		case "lookup", "resume", "foreign":
 			var s, srcTerm string
 			if o.K == "foreign" {
@@ -1662,6 +1891,206 @@ func c15GenHubCase(r *vrng, id int) *c15Case {
 	return c
 }
 
+// ---- ids made by the hub's request paths ------------------------------------------------------------
+// hello of ordinary and of internal clients (processRegister: mints both ids, stores the session,
+// pre-fills the decode caches), addsession (processInternalMsg: mints both ids of a virtual session,
+// stores it), and the ways sessions end (bye, removesession, a virtual session replaced by one with the
+// same id, the virtual sessions of an internal client that leaves, expiry after a lost connection; all
+// through removeSession, which deletes both cache entries).  After every step every id seen so far --
+// private and public, of live and of ended sessions -- is put to the hub's decoder of its role and to
+// the codec the hub holds (op "both"): the two must agree, and answer the data the id was made with.
+
+// the ids of the labels, each under its own role (now and then under the other one as well)
+func c15Sweep(r *vrng, ops []c15Op, labels []int) []c15Op {
+	type ent struct{ base, which int }
+	var es []ent
+	for _, l := range labels {
+		es = append(es, ent{l, c15Private}, ent{l, c15Public})
+	}
+	for i := len(es) - 1; i > 0; i-- {
+		j := r.intn(i + 1)
+		es[i], es[j] = es[j], es[i]
+	}
+	for _, e := range es {
+		ops = append(ops, c15Op{K: "both", Role: e.which, Src: &c15Src{Base: e.base, Which: e.which, Mut: c15Mut{K: "id"}}})
+		if r.chance(8) {
+			ops = append(ops, c15Op{K: "both", Role: 1 - e.which, Src: &c15Src{Base: e.base, Which: e.which, Mut: c15Mut{K: "id"}}})
+		}
+	}
+	return ops
+}
+
+func c15DirectedPathCases(r *vrng, id int) []*c15Case {
+	var cs []*c15Case
+	// the shortest histories first: one session of each request path, every id right after it was made,
+	// looked up, and again after the session ended
+	for _, shape := range [][2]int{{1, 0}, {2, 2}} {
+		c := &c15Case{Id: id, Mode: 2, NCaches: shape[0], Size: shape[1], Note: "ids made by the hub's request paths (short)"}
+		id++
+		src := func(base, which int) *c15Src { return &c15Src{Base: base, Which: which, Mut: c15Mut{K: "id"}} }
+		c.Ops = append(c.Ops, c15Op{K: "register_internal", Label: 1})
+		c.Ops = c15Sweep(r, c.Ops, []int{1})
+		c.Ops = append(c.Ops, c15Op{K: "addsession", Label: 2, Parent: 1, Sess: "v1"})
+		c.Ops = c15Sweep(r, c.Ops, []int{1, 2})
+		c.Ops = append(c.Ops,
+			c15Op{K: "lookup", Role: c15Private, Src: src(2, c15Private)},
+			c15Op{K: "lookup", Role: c15Public, Src: src(2, c15Public)},
+			c15Op{K: "dump"},
+			c15Op{K: "removesession", Label: 2})
+		c.Ops = c15Sweep(r, c.Ops, []int{1, 2})
+		c.Ops = append(c.Ops, c15Op{K: "lookup", Role: c15Private, Src: src(2, c15Private)}, c15Op{K: "dump"})
+		cs = append(cs, c)
+	}
+	for _, shape := range [][2]int{{1, 0}, {1, 2}, {2, 3}, {3, 6}, {1, 1}} {
+		c := &c15Case{Id: id, Mode: 2, NCaches: shape[0], Size: shape[1], Note: "ids made by the hub's request paths"}
+		id++
+		var labels []int
+		step := func(o c15Op) {
+			c.Ops = append(c.Ops, o)
+			if o.Label != 0 && (o.K == "register" || o.K == "register_internal" || o.K == "addsession") {
+				labels = append(labels, o.Label)
+			}
+			c.Ops = c15Sweep(r, c.Ops, labels)
+		}
+		src := func(base, which int) *c15Src { return &c15Src{Base: base, Which: which, Mut: c15Mut{K: "id"}} }
+		step(c15Op{K: "register_internal", Label: 1})
+		step(c15Op{K: "register", Label: 2})
+		step(c15Op{K: "addsession", Label: 3, Parent: 1, Sess: "v1"})
+		c.Ops = append(c.Ops, c15Op{K: "dump"})
+		step(c15Op{K: "addsession", Label: 4, Parent: 1, Sess: "v2", Ks: 1})
+		c.Ops = append(c.Ops,
+			c15Op{K: "lookup", Role: c15Private, Src: src(3, c15Private)},
+			c15Op{K: "lookup", Role: c15Public, Src: src(3, c15Public)},
+			c15Op{K: "lookup", Role: c15Private, Src: src(4, c15Public)},
+			c15Op{K: "lookup", Role: c15Private, Src: src(1, c15Private)})
+		step(c15Op{K: "addsession", Label: 5, Parent: 1, Sess: "v1"}) // replaces 3
+		step(c15Op{K: "removesession", Label: 4})
+		c.Ops = append(c.Ops, c15Op{K: "dump"},
+			c15Op{K: "lookup", Role: c15Private, Src: src(3, c15Private)},
+			c15Op{K: "lookup", Role: c15Public, Src: src(4, c15Public)},
+			c15Op{K: "lookup", Role: c15Private, Src: src(5, c15Private)})
+		step(c15Op{K: "prefill", Role: c15Private, Src: src(5, c15Private)})
+		step(c15Op{K: "prefill", Role: c15Public, Src: src(5, c15Private)}) // the codec refuses: nothing stored
+		step(c15Op{K: "invalidate", Role: c15Public, Src: src(5, c15Public)})
+		step(c15Op{K: "invalidate", Role: c15Private, Src: src(2, c15Public)})
+		c.Ops = append(c.Ops, c15Op{K: "dump"})
+		step(c15Op{K: "register_internal", Label: 6})
+		step(c15Op{K: "addsession", Label: 7, Parent: 6, Sess: "v1"})
+		step(c15Op{K: "drop", Label: 6})   // 7 ends with it
+		step(c15Op{K: "remove", Label: 1}) // 5 ends with it
+		step(c15Op{K: "remove", Label: 2})
+		c.Ops = append(c.Ops, c15Op{K: "dump"})
+		cs = append(cs, c)
+	}
+	return cs
+}
+
+func c15GenPathCase(r *vrng, id int) *c15Case {
+	c := &c15Case{Id: id, Mode: 2, NCaches: 1 + r.intn(3), Size: pick(r, []int{1, 2, 3, 4, 6, 0}), Note: "ids made by the hub's request paths"}
+	label := 0
+	var all []int                // every label that got ids
+	var clients, internals []int // live, by kind
+	virt := map[int]int{}        // live virtual session -> its internal client
+	vname := map[int]string{}
+	add := func(o c15Op) { c.Ops = append(c.Ops, o) }
+	del := func(l []int, x int) []int {
+		var out []int
+		for _, y := range l {
+			if y != x {
+				out = append(out, y)
+			}
+		}
+		return out
+	}
+	endInternal := func(p int) {
+		internals = del(internals, p)
+		for v, q := range virt {
+			if q == p {
+				delete(virt, v)
+			}
+		}
+	}
+	virtuals := func() []int {
+		var out []int
+		for v := range virt {
+			out = append(out, v)
+		}
+		sort.Ints(out)
+		return out
+	}
+	label++
+	add(c15Op{K: "register_internal", Label: label})
+	internals, all = append(internals, label), append(all, label)
+	c.Ops = c15Sweep(r, c.Ops, all)
+	for n := 7 + r.intn(5); n > 0; n-- {
+		switch x := r.intn(100); {
+		case x < 14 && len(all) < 9:
+			label++
+			add(c15Op{K: "register", Label: label})
+			clients, all = append(clients, label), append(all, label)
+		case x < 22 && len(all) < 9:
+			label++
+			add(c15Op{K: "register_internal", Label: label})
+			internals, all = append(internals, label), append(all, label)
+		case x < 52 && len(internals) > 0 && len(all) < 10:
+			p := pick(r, internals)
+			name := pick(r, []string{"v1", "v2", "v3"})
+			for v, q := range virt {
+				if q == p && vname[v] == name {
+					delete(virt, v) // replaced
+				}
+			}
+			label++
+			add(c15Op{K: "addsession", Label: label, Parent: p, Sess: name, Ks: r.intn(2)})
+			virt[label], vname[label] = p, name
+			all = append(all, label)
+		case x < 62 && len(virt) > 0:
+			v := pick(r, virtuals())
+			add(c15Op{K: "removesession", Label: v})
+			delete(virt, v)
+		case x < 68 && len(clients) > 0:
+			l := pick(r, clients)
+			add(c15Op{K: pick(r, []string{"remove", "drop"}), Label: l})
+			clients = del(clients, l)
+		case x < 74 && len(internals) > 0:
+			p := pick(r, internals)
+			add(c15Op{K: pick(r, []string{"remove", "drop"}), Label: p})
+			endInternal(p)
+		case x < 86:
+			base, which := pick(r, all), r.intn(2)
+			role := which
+			if r.chance(20) {
+				role = 1 - which
+			}
+			kind := "lookup"
+			isClient := false
+			for _, l := range append(append([]int{}, clients...), internals...) {
+				isClient = isClient || l == base
+			}
+			if isClient && r.chance(30) {
+				kind = "resume" // hello with a resume id: for the sessions of clients only (a virtual session is not resumed)
+			}
+			add(c15Op{K: kind, Role: role, Src: &c15Src{Base: base, Which: which, Mut: c15Mut{K: "id"}}})
+		case x < 92:
+			base, which := pick(r, all), r.intn(2)
+			role := which
+			if r.chance(25) {
+				role = 1 - which
+			}
+			add(c15Op{K: "prefill", Role: role, Src: &c15Src{Base: base, Which: which, Mut: c15Mut{K: "id"}}})
+		case x < 97:
+			base, which := pick(r, all), r.intn(2)
+			add(c15Op{K: "invalidate", Role: which, Src: &c15Src{Base: base, Which: which, Mut: c15Mut{K: "id"}}})
+		default:
+			add(c15Op{K: "dump"})
+			continue
+		}
+		c.Ops = c15Sweep(r, c.Ops, all)
+	}
+	add(c15Op{K: "dump"})
+	return c
+}
+
 // Concurrent lookups on one hub with small caches (a test, not a proof): while
 // goroutines look up live ids, re-spellings, foreign ids and ids of the other
 // role, every session returned must own exactly the string that was presented,
@@ -1801,9 +2230,9 @@ func TestVerifC15(t *testing.T) {
 	defer log.SetOutput(prevOut)
 
 	u := newC15Universe()
-	nCodec, nCraft, nHub, nConfig := 40, 12, 14, 2
+	nCodec, nCraft, nHub, nConfig, nPath := 40, 12, 14, 2, 5
 	if env.thorough() {
-		nCodec, nCraft, nHub, nConfig = 640, 160, 160, 40
+		nCodec, nCraft, nHub, nConfig, nPath = 640, 160, 160, 40, 60
 	}
 	var cases []*c15Case
 	if env.replay != "" {
@@ -1829,6 +2258,10 @@ func TestVerifC15(t *testing.T) {
 			id++
 		}
 		cases = append(cases, c15DirectedHubCases(8000000)...)
+		cases = append(cases, c15DirectedPathCases(newVrng(env.seed, 88200), 8200000)...)
+		for i := 0; i < nPath; i++ {
+			cases = append(cases, c15GenPathCase(newVrng(env.seed, uint64(88300+i)), 8200100+i))
+		}
 		cases = append(cases, c15DirectedConfigCase(newVrng(env.seed, 88001), 8100000))
 		for i := 0; i < nConfig; i++ {
 			cases = append(cases, c15GenConfigCase(newVrng(env.seed, uint64(88100+i)), 8100001+i))
@@ -1885,6 +2318,7 @@ func TestVerifC15(t *testing.T) {
 		"codec cases: one data value minted as private and public id under key set 0 and under another key set; every single-bit flip of the first/last bytes and of random positions, truncations, extensions, CR/LF and other bytes inserted, every trailing-bit re-spelling, standard alphabet, no padding, re-encoding, reversal, other role, other keys, twin key set",
 		"craft cases: strings built with the real keys (time stamp strings, value parts, MAC variants) to reach every check of the decoder; length cases around 4096 characters",
 		"config cases: one hub per configuration through NewHub ([sessions] hashkey / blockkey: block keys of 16, 24, 32 bytes, none, absent, invalid lengths, multi-byte characters; shared and different hash keys); every id minted with a hub's codec is decoded with the codec of every other hub; the key sets on the Coq side are the model's reading of the configuration texts",
-		"hub cases: real Hub (CreateHubForTest) with small decode caches; register (hello), remove (bye), GetSessionByResumeId / GetSessionByPublicId, hello with resume id, the hub's decoders of both roles applied to the ids handed out (own role, other role, reversal, re-spellings) and to texts never minted, cache dumps")
+		"hub cases: real Hub (CreateHubForTest) with small decode caches; register (hello), remove (bye), GetSessionByResumeId / GetSessionByPublicId, hello with resume id, the hub's decoders of both roles applied to the ids handed out (own role, other role, reversal, re-spellings) and to texts never minted, cache dumps",
+		"request-path cases (hub): ids made by hello of ordinary and internal clients and by addsession (virtual sessions, with and without options, replaced ones); sessions ending by bye, removesession, replacement, the internal client leaving, expiry after a lost connection; setDecodedSessionId / invalidateSessionId by themselves; after every step every id seen so far (live and ended, both roles) goes through the hub's decoder of its role and through hub.cookie.DecodePrivate / DecodePublic")
 	sink.close("seeded cases on the real SessionIdCodec / Hub; non-trivial = an id was minted, at least one string accepted and one rejected; distinct = distinct observation sequences")
 }
